@@ -48,6 +48,13 @@ class Outcome:
                 "exc": self.exc_type, "where": self.exc_where}
 
 
+class _Capture(io.StringIO):
+    """stdout capture that survives the code under test closing sys.stdout (sort does)"""
+
+    def close(self):
+        pass
+
+
 class _ListHandler(logging.Handler):
     def __init__(self):
         super().__init__(level=logging.DEBUG)
@@ -87,7 +94,7 @@ def run_cli(argv, capture_stdout=True):
     lh = _ListHandler()
     root.addHandler(lh)
     old_out, old_err = sys.stdout, sys.stderr
-    out = io.StringIO()
+    out = _Capture()
     err = io.StringIO()
     if capture_stdout:
         sys.stdout = out
